@@ -326,6 +326,22 @@ impl Visitor<Diagnostic> for LibraryRenderer {
         Ok(())
     }
 
+    // 2.3.3.1
+    fn visit_enumerated_value(
+        &mut self,
+        node: &EnumeratedValue,
+    ) -> Result<Self::Value, Diagnostic> {
+        match &node.type_name {
+            Some(type_name) => {
+                // The type prefix and the value are written without blanks
+                let val = format!("{}#{}", type_name.name.original(), node.value.original());
+                self.write_ws(val.as_str());
+                Ok(())
+            }
+            None => self.visit_id(&node.value),
+        }
+    }
+
     fn visit_subrange_declaration(
         &mut self,
         node: &SubrangeDeclaration,
